@@ -647,6 +647,17 @@ fn targeted(mode: &str, work: &Path) -> Vec<(Cfg, Vec<J>)> {
             }
             out.push((cfg, ops));
         }
+        // LSEEK on a directory handle (offsets are file-system specific: only "same as the host") and on a file handle
+        {
+            let ops = vec![json!({"op": "lookup", "p": 0, "name": "d1", "nk": "plain"}), json!({"op": "open", "n": 1, "flags": libc::O_RDONLY}),
+                           json!({"op": "lseek", "n": 1, "h": 0, "off": 3, "whence": 1}), json!({"op": "lseek", "n": 1, "h": 0, "off": 0, "whence": 0}),
+                           json!({"op": "lookup", "p": 0, "name": "f1", "nk": "plain"}), json!({"op": "open", "n": 2, "flags": libc::O_RDWR}),
+                           json!({"op": "lseek", "n": 2, "h": 1, "off": 3, "whence": 1}), json!({"op": "read", "n": 2, "h": 1, "off": 0, "len": 4, "flags": libc::O_RDWR}),
+                           json!({"op": "write", "n": 2, "h": 1, "off": 2, "data": [49, 50], "flags": libc::O_RDWR}),
+                           json!({"op": "lseek", "n": 2, "h": 1, "off": 2, "whence": 1}), json!({"op": "lseek", "n": 2, "h": 1, "off": 1, "whence": 2}),
+                           json!({"op": "opendir", "n": 1, "flags": libc::O_RDONLY}), json!({"op": "lseek", "n": 1, "h": 2, "off": 0, "whence": 1})];
+            out.push((base.clone(), ops));
+        }
         // SETATTR with explicit / now / untouched times in every combination, through a handle and by reference
         for (no_open, ifh) in [(false, false), (true, false), (false, true)] {
             let cfg = Cfg { no_open, cache: if no_open { 3 } else { 2 }, ifh, ..base.clone() };
